@@ -108,6 +108,8 @@ def drive(a, rng):
     tm = gen.CMap("id")
     tm.__call__ = None
     tables = gen.build_tables(dict(a, sites=a["sites"], muts=a["muts"]), cmap, lambda k: tscale(k))
+    if rng.random() < 0.4:
+        gen.add_user_flags(tables, rng)      # user flag bits never matter
     ts = tables.tree_sequence()
     N = ts.num_nodes
     case = dict(ts=dict(L=a["L"], time=a["time"], flags=a["flags"], edges=a["edges"]), trees=[], scale=[tscale.d, tscale.offset, tscale.mult])
